@@ -86,3 +86,36 @@ func loopLeftOnlyAtHeader(header *ssa.BasicBlock) bool {
 	}
 	return true
 }
+
+// loopSideExits: the blocks outside the loop that are entered from a block of the loop other than its header
+// (a break, a return or a panic from inside a trip).
+func loopSideExits(header *ssa.BasicBlock) []*ssa.BasicBlock {
+	body := map[*ssa.BasicBlock]bool{header: true}
+	for changed := true; changed; {
+		changed = false
+		for _, b := range header.Parent().Blocks {
+			if body[b] || !header.Dominates(b) {
+				continue
+			}
+			for _, s := range b.Succs {
+				if body[s] {
+					body[b] = true
+					changed = true
+					break
+				}
+			}
+		}
+	}
+	var out []*ssa.BasicBlock
+	for b := range body {
+		if b == header {
+			continue
+		}
+		for _, s := range b.Succs {
+			if !body[s] {
+				out = append(out, s)
+			}
+		}
+	}
+	return out
+}
